@@ -110,7 +110,9 @@ def check_base(acc, tag, ast, tier):
     groups = {r[1] for r in base if r[0] == "ok"}
     acc.outcomes.update(str(g) for g in groups)
     # (1) extra keyword arguments
-    extras = [n for n in ei.POOL1[:12] + ["extra", "uid2", "salt", "weights", "population", "input_id", "self"] if n not in split and n not in cids and n != name]
+    near = [f(n) for n in list(split) + cids for f in (lambda x: x + "s", lambda x: x.upper(), lambda x: x.replace("_", ""), lambda x: x + "_", lambda x: x[:-1] or "x", lambda x: "_" + x)]
+    extras = [n for n in dict.fromkeys(ei.POOL1[:12] + ["extra", "uid2", "salt", "weights", "population", "input_id", "self"] + near)
+              if n.isidentifier() and n not in split and n not in cids and n != name]
     vs = vals.ALL if tier == "thorough" else vals.SMALL + [vals.STRS[8], 10**100, float("nan")]
     sub = envs[:: max(1, len(envs) // 12)]
     want = results(ev, sub)
@@ -197,17 +199,52 @@ def check_base(acc, tag, ast, tier):
         acc.samples.append({"text": short(text, 200), "ids": len(IDS), "transformations": ["extra-kwarg", "rename", "decl-order", "kwarg-order", "cond-values", "omitted", "salt"]})
 
 
+TWIN_SALTS = [("p\x0cq", "p\x0c q"), ("p\rq", "p\r q"), ("p\u2028q", "p\x85q"), ("http://a/x", "http://a/y"), ("x//a", "x//b"), ("S", "s"), ("s ", "s"), ("é", "e\u0301"), ("a  b", "a b")]
+
+
 def _work(units):
     acc = progcheck.Acc()
     for tag, ast, tier in units:
+        if tag == "twin-salts":
+            # programs that differ only in near-identical salts, compiled one after the other in ONE process: each must
+            # follow ITS salt (a parse cache keyed by a normalised source would hand the second the first one's tree)
+            from .. import oracle
+
+            for a, b in TWIN_SALTS:
+                for salt in (a, b, a):
+                    p_ast = ("prog", "exp", salt, ("uid",), ("ret", MULTI))
+                    text = rp.render(p_ast)
+                    if rp.classify(text) != ("accept", p_ast):
+                        continue
+                    bb = impl.build(text)
+                    acc.add("programs")
+                    if bb[0] != "ok":
+                        acc.violation({"kind": "dep:twin-salt", "sub": "build", "text": text, "observed": list(bb)})
+                        continue
+                    for u in IDS[:48]:
+                        acc.add("evaluations")
+                        why = oracle.agree(impl.call(bb[1], {"uid": u}), oracle.expected(p_ast, {"uid": u}))
+                        if why:
+                            acc.violation({"kind": "dep:twin-salt", "sub": "eval", "text": text, "env": enc({"uid": u}), "before": [a, b],
+                                           "why": "the group does not follow this program's own salt: " + why})  # fmt: skip
+                            break
+            continue
         check_base(acc, tag, ast, tier)
     return acc.out()
 
 
+def _hostile_work(tags):
+    bases = dict(base_programs())
+    return _work([(t, bases[t], "quick") for t in tags if t in bases] + [("twin-salts", None, "quick")])
+
+
 def run(res, tier):
-    units = [(tag, ast, tier) for tag, ast in base_programs()]
+    units = [(tag, ast, tier) for tag, ast in base_programs()] + [("twin-salts", None, tier)]
     for w in pmap(_work, permuted(units, "c09"), chunk=1):
         res.merge_worker(w)
+    from ..common import hostile_runs
+
+    hostile_runs(res, "mc.checks.c09", "_hostile_work", ["plain1s", "plain2", "sharedcond", "shape2.3"])
     res.set("states", res.cov.get("programs", 0))
     res.set("transitions", res.cov.get("evaluations", 0))
     res.set("traces_validated_against_impl", res.cov.get("evaluations", 0))
@@ -216,6 +253,14 @@ def run(res, tier):
 
 def replay(data):
     from ..common import dec
+
+    if data.get("host_environment"):
+        from ..common import replay_in_host
+
+        return replay_in_host(data, "mc.checks.c09", "_hostile_work", ["plain1s", "plain2", "sharedcond", "shape2.3"])
+    if data.get("kind") == "dep:twin-salt":
+        r = _work([("twin-salts", None, "quick")])
+        return bool(r["viol"]), (r["viol"][0].get("why", "build failure") if r["viol"] else "each program follows its own salt")
 
     cl = rp.classify(data["text"])
     if cl[0] != "accept":
